@@ -86,7 +86,7 @@ def check_doc(case):
     import hszinc
     ms = [model.normalise(m) for m in case['grids']]
     gs = [model.from_model(m) for m in ms]
-    txt = guarded('dump-raises', case, hszinc.dump, gs[0] if case['single'] else gs, mode=hszinc.MODE_JSON)
+    txt = rt.dump_doc(case, gs, case['single'], 'json', len(repr(ms)))
     if not isinstance(txt, str):
         raise Violation('dump-type', case, 'dump returned %s' % type(txt).__name__)
     try:
@@ -115,7 +115,7 @@ def check_scalar(case):
     import hszinc
     m, ver = model.normalise(case['value']), case['ver']
     v = model.from_model(m)
-    enc = guarded('dump-raises', case, hszinc.dump_scalar, v, mode=hszinc.MODE_JSON, version=hszinc.Version(ver))
+    enc = guarded('dump-raises', case, hszinc.dump_scalar, v, mode=rt._mode('json', len(repr(m))), version=(hszinc.Version(ver) if len(repr(m)) % 3 else ver))
     try:
         txt = json.dumps(enc, allow_nan=False)
     except (ValueError, TypeError) as e:
